@@ -55,7 +55,29 @@ def gen_circuit(rng, kcuts, nmax):
     n = rng.randint(3, nmax)
     ops = [[rng.choice(["RX", "RY"]), [pyth_angle(rng)], [w]] for w in range(n) if rng.random() < 0.8]
     style = rng.random()
-    if style < 0.7:
+    if style < 0.3 and n >= 4:
+        # two fragments joined by two (or three) parallel cuts: several measure / prepare axes per tensor
+        a = rng.randint(2, n - 2)
+        npar = 2 if (kcuts < 3 or a < 3) else 3
+        wa, wb = list(range(0, a + 1)), list(range(a + 1 - npar, n))
+        for _ in range(rng.randint(3, 5)):
+            ops.append(rand_gate(rng, wa))
+        shared = list(range(a + 1 - npar, a + 1))
+        rng.shuffle(shared)
+        if npar == 2 and rng.random() < 0.3:
+            ops.append(["WireCut", [], shared])
+        else:
+            for w in shared:
+                ops.append(["WireCut", [], [w]])
+                if rng.random() < 0.3:
+                    ops.append(rand_gate(rng, wb))
+        for _ in range(rng.randint(3, 5)):
+            ops.append(rand_gate(rng, wb))
+        if kcuts == 1 and rng.random() < 0.5:
+            # back to the first fragment: a tensor with both measure and prepare axes
+            ops.append(["WireCut", [], [shared[0]]])
+            ops.append(rand_gate(rng, [w for w in wa if w not in shared[1:]] or wa))
+    elif style < 0.75:
         # chain of stages sharing one wire, cut on the shared wire between stages
         nst = kcuts + 1
         bounds = sorted(rng.sample(range(1, n), min(nst - 1, n - 1))) if n > 1 else []
